@@ -62,6 +62,8 @@ struct Cfg {
   bool dump_every_step = false;
   bool mask = false, turbulence = false, live_output = false;
   bool gravity = false, cooling = false, restart_midway = false;
+  // threads of the run restarted midway (0: as the first run)
+  int restart_threads = 0;
   int live_mask = 7; // which live outputs are switched on
   int source_type = 0; // 0 SingleStar, 1 AsciiFile, 2 UniformRandom, 3 SingleSupernova, 4 DiscPatch, 5 Caproni (positions on galactic scales: only without radiation)
   bool feedback = false;
@@ -137,6 +139,7 @@ struct Cfg {
     j["gravity"] = gravity;
     j["cooling"] = cooling;
     j["restart_midway"] = restart_midway;
+    j["restart_threads"] = restart_threads;
     j["live_mask"] = live_mask;
     j["source_type"] = source_type;
     j["feedback"] = feedback;
@@ -205,6 +208,7 @@ struct Cfg {
     c.gravity = j.at("gravity").as_bool();
     c.cooling = j.at("cooling").as_bool();
     c.restart_midway = j.at("restart_midway").as_bool();
+    c.restart_threads = (int)j.at("restart_threads").as_int(0);
     c.live_mask = (int)j.at("live_mask").as_int(7);
     c.source_type = (int)j.at("source_type").as_int(0);
     c.feedback = j.at("feedback").as_bool();
